@@ -11,4 +11,4 @@ Extraction "model.ml"
   fse_build_decoder fse_build_from_probabilities fse_new huf_build_decoder huf_new
   Zrs.model.Headers.read_frame_header
   mgd_new mgd_window_size commit_space mgd_start mgd_skip mgd_reset compress_frame_oracle
-  io_read_exact io_take_read io_write_all brr_new brr_run rbr_run decode_reencode huf_stream_model huf_describe_and_decode desc_bytes dist_okb read_probabilities decode_rewrite_section rewrite_raw_block fastest_first_block.
+  io_read_exact io_take_read io_write_all brr_new brr_run rbr_run decode_reencode huf_stream_model huf_describe_and_decode desc_bytes dist_okb read_probabilities decode_rewrite_section rewrite_raw_block fastest_first_block rewrite_blocks.
